@@ -88,7 +88,19 @@ def _mutator(name, fn, gfa_before=False):
         _depth += 1
         try:
             r = fn(self, *a, **k)
-        finally:
+        except Exception:
+            _depth -= 1
+            if _depth == 0 and name != "Gfa()":
+                # a refused call is a quiescent point too: the structure must be sound
+                # (not for the constructor: the caller never gets the object)
+                _bump("outermost-raised:" + name)
+                _tick += 1
+                if _tick % RATE == 0:
+                    g = g0 if g0 is not None else _gfa_of(self)
+                    if g is not None:
+                        walk(g, name + " (raised)")
+            raise
+        else:
             _depth -= 1
         if _depth == 0:
             _bump("outermost:" + name)
